@@ -43,7 +43,7 @@ def classify(rc, err):
     return 'ok', '', ''
 
 
-def run_case(ctx, case, idx):
+def run_case(ctx, case, idx, timeout=60):
     """drc FILE1 FILE2 on the files of the case."""
     d = os.path.join(ctx.work, 'f%d' % idx)
     for rel, text in case['files'].items():
@@ -55,7 +55,7 @@ def run_case(ctx, case, idx):
     env.pop('SIMULATE_ROUTER', None)
     try:
         p = subprocess.run([os.path.join(ctx.bin, 'drc'), 'device', 'code/router'], cwd=d, env=env,
-                           stdout=subprocess.PIPE, stderr=subprocess.PIPE, timeout=30)
+                           stdout=subprocess.PIPE, stderr=subprocess.PIPE, timeout=timeout)
         rc, err = p.returncode, p.stderr.decode('utf-8', 'replace')
     except subprocess.TimeoutExpired:
         rc, err = 'hang', ''
@@ -65,4 +65,9 @@ def run_case(ctx, case, idx):
 
 def run_family(ctx, cases, workers=16):
     with ThreadPoolExecutor(workers) as ex:
-        return list(ex.map(lambda ic: run_case(ctx, ic[1], ic[0]), enumerate(cases)))
+        res = list(ex.map(lambda ic: run_case(ctx, ic[1], ic[0]), enumerate(cases)))
+    # a run that did not finish while 16 ran in parallel is repeated alone with a long limit before it counts as a hang
+    for i, r in enumerate(res):
+        if r[0] == 'hang':
+            res[i] = run_case(ctx, cases[i], i, timeout=600)
+    return res
